@@ -416,6 +416,39 @@ fn nonfinite_part(res: &mut PartResult) {
             }
         }
     }
+    // the batched entry point (`HistogramFn::record_many`): `count` pushes of one value count as `count` pushes — for the
+    // number yielded and for the sample rate — whether count is below, at or far above the capacity
+    for cap in [1usize, 2, 4] {
+        for pre in [0usize, 1] {
+            for count in [0usize, 1, cap, cap + 1, 3 * cap + 1] {
+                res.executions += 1;
+                res.transitions += 2;
+                RNG_SCRIPT.with(|s| *s.borrow_mut() = Some(RngScript::default()));
+                let r = AtomicSamplingReservoir::new(cap);
+                for _ in 0..pre {
+                    metrics::HistogramFn::record(&r, 1.0);
+                }
+                metrics::HistogramFn::record_many(&r, 5.0, count);
+                let mut got: Vec<f64> = Vec::new();
+                let mut rate = -1.0;
+                r.consume(|d| {
+                    rate = d.sample_rate();
+                    got = d.collect();
+                });
+                RNG_SCRIPT.with(|s| s.borrow_mut().take());
+                let n = pre + count;
+                let want_rate = if n <= cap { 1.0 } else { cap as f64 / n as f64 };
+                let cfg = json!({"cap": cap, "pre": pre, "count": count});
+                states.add(&(cap, n, got.len()));
+                if got.len() != n.min(cap) || got.iter().any(|v| *v != 5.0 && *v != 1.0) {
+                    res.violation("drain-yields-wrong-count", format!("capacity {}: {} x record(1.0) then record_many(5.0, {}): the drain yielded {:?}", cap, pre, count, got), cfg.clone());
+                }
+                if (rate - want_rate).abs() > 1e-12 {
+                    res.violation("sample-rate-wrong", format!("capacity {}: {} x record(1.0) then record_many(5.0, {}): {} values were pushed, {} yielded, sample rate {} (expected {})", cap, pre, count, n, got.len(), rate, want_rate), cfg.clone());
+                }
+            }
+        }
+    }
     res.states = states.len();
     res.distinct_outcomes = states.len();
     res.sample(json!({"stream": "[1.0, NaN(1), +inf, -inf, NaN(2), -0.0, 0.0, 2.0]", "capacity": 8, "expected": "exactly these 8 bit patterns, rate 1"}));
@@ -469,7 +502,7 @@ fn main() {
     driver::main(CheckDef {
         prop: "C16",
         level: "model_checking",
-        rule: "E3: for every capacity in the list, every push count 0..=cap+extra in cycle 1 and {0,1,cap+1} in cycle 2, the complete tree of answers of every fastrand(upper) call (RNG seam) is enumerated on the real AtomicSamplingReservoir; every leaf is checked (yield subset/count/sample rate/fresh start) and retention probabilities are summed with exact rational weights; streams of non-finite values and signed zeros (compared by bit pattern) for capacities 1-8 over every seam answer; E1: all SC interleavings (pb-bounded) of pushes with consumes (one or two pushing threads, one or two consuming threads); distinct = distinct (configuration, yields) leaves / outcomes",
+        rule: "E3: for every capacity in the list, every push count 0..=cap+extra in cycle 1 and {0,1,cap+1} in cycle 2, the complete tree of answers of every fastrand(upper) call (RNG seam) is enumerated on the real AtomicSamplingReservoir; every leaf is checked (yield subset/count/sample rate/fresh start) and retention probabilities are summed with exact rational weights; streams of non-finite values and signed zeros (compared by bit pattern) for capacities 1-8 over every seam answer; the batched entry point record_many with counts 0, 1, capacity, capacity+1 and 3*capacity+1; E1: all SC interleavings (pb-bounded) of pushes with consumes (one or two pushing threads, one or two consuming threads); distinct = distinct (configuration, yields) leaves / outcomes",
         assumptions: &["the RNG is uniform over 0..upper (the seam replaces it by enumeration of all answers with weight 1/upper); the part rng-per-thread checks, outside the enumeration, that the real generator does not give every fresh thread the same answers", "E1: sequential consistency (the reservoir uses Relaxed orderings; weak-memory effects are not explored)"],
         parts,
         run,
